@@ -128,6 +128,16 @@ MapRun(ev, i, M, everHad) ==
          /\ (e.what = "other" => (e.status = 403 \/ SeqSet(e.uids) \subseteq {m[1] : m \in {x \in M : x[2] = e.peer}}))
          /\ MapRun(ev, i + 1, M, everHad)
     ELSE MapRun(ev, i + 1, M, everHad)
-C11Holds(ev) == MapRun(ev, 1, {}, {})
+(* every peer has a slot of the connection table to itself (credentials, the partly read request, the descriptor live there):   *)
+(* a slot handed out is not in use, one given back was in use, and a peer is turned away only when all 64 are taken              *)
+RECURSIVE SlotRun(_, _, _)
+SlotRun(ev, i, Held) ==
+  IF i > Len(ev) THEN TRUE
+  ELSE IF ev[i].e # "Slot" THEN SlotRun(ev, i + 1, Held)
+  ELSE IF ev[i].op = "open"
+       THEN IF ev[i].slot = -1 THEN Cardinality(Held) = 64 /\ SlotRun(ev, i + 1, Held)
+            ELSE ev[i].slot \in 0..63 /\ ev[i].slot \notin Held /\ ~ev[i].clash /\ SlotRun(ev, i + 1, Held \cup {ev[i].slot})
+       ELSE ev[i].slot \in Held /\ SlotRun(ev, i + 1, Held \ {ev[i].slot})
+C11Holds(ev) == MapRun(ev, 1, {}, {}) /\ SlotRun(ev, 1, {})
 NoDeath(ev) == ~\E i \in 1..Len(ev) : ev[i].e \in {"Died", "Garbled"}
 =============================================================================
